@@ -10,7 +10,7 @@ PREDS = {
     "C01": ["T_C01_ServedOnceRightService", "T_C01_AllServed"],
     "C02": ["T_C02_Bound"],
     "C03": ["T_C03_NoLostWake", "T_C02_Bound"],
-    "C04": ["T_C04_EvenSpread", "T_C02_Bound"],
+    "C04": ["T_C04_EvenSpread", "T_C04_EveryWorkerTakesItsTurn", "T_C02_Bound"],
     "C05": ["T_C05_PauseResume"],
     "C08": ["T_C08_ServiceContinues", "T_C08_Replaced"],
 }
